@@ -3132,6 +3132,24 @@ def copy_bdd(
         logger.warning(
             'copying node to same BDD manager')
         return u
+    return _copy_bdd_to(to_bdd, u, from_bdd)
+
+
+@_try_to_reorder
+def _copy_bdd_to(
+        to_bdd:
+            BDD,
+        u:
+            _Ref,
+        from_bdd:
+            BDD
+        ) -> _Ref:
+    """Copy BDD of node `u` `from_bdd` `to_bdd`.
+
+    Serves reordering requests of `to_bdd`.
+    The level map is computed here, so that
+    it is recomputed if `to_bdd` is reordered.
+    """
     level_map = {
         from_bdd.level_of_var(var):
             to_bdd.level_of_var(var)
